@@ -147,7 +147,7 @@ def run(ctx):
         verdict = bisim(ctx, dump, r.table) if dump else "NO-LEXDUMP"
         ok = verdict.startswith("CLOSED") and "check=true" in verdict and "emitted_equals_itemsets=true" in verdict
         ctx.add_obligation("R: bisim_check(emitted DFA of %s, lexical rules) = true (extracted verified checker)" % r.name, ok, verdict[:300])
-        if ok and len(kernel_batch) < (6 if not thorough else 40):
+        if ok and len(kernel_batch) < (40 if not thorough else 120):
             kernel_batch.append((r.name, coq_of_dump(r.name, open(dump).read(), r.rows, r.acts)))
         hist[verdict.split(" ")[0]] += 1
         if not dump:
@@ -183,7 +183,15 @@ def run(ctx):
             samples.append({"grammar": r.g.text(), "input": repr(inputs[0]), "tokens": go[0][:200], "bisim": verdict[:80]})
     # kernel-evaluated sample
     if kernel_batch:
-        res, err = kernel_check(kernel_batch)
+        # all of them, in parallel shards (one coqc per shard)
+        import concurrent.futures
+        nsh = min(10, len(kernel_batch))
+        shards = [kernel_batch[i::nsh] for i in range(nsh)]
+        res, err = {}, ""
+        with concurrent.futures.ThreadPoolExecutor(nsh) as ex:
+            for (r1, e1) in ex.map(kernel_check, shards):
+                res.update(r1)
+                err = err or e1
         for n, _ in kernel_batch:
             ctx.add_obligation("R: bisim_check(emitted DFA of %s, lexical rules) = true by vm_compute (Coq kernel)" % n, res.get(n, False), err)
     # regression: regular definitions are macros (defect D4, repaired)
